@@ -705,13 +705,317 @@ impl SubCheckT for Lca {
     }
 }
 
+// ---------------------------------------------------------------------------
+// orders, dtrees and derived vtrees of formulas over several hundred variables
+// ---------------------------------------------------------------------------
+
+/// a formula over `n` variables (labels beyond one byte and beyond 1024), generated from a seed
+#[derive(Clone, Debug, Serialize, Deserialize)]
+pub struct HugeCase {
+    pub n: u16,
+    /// 0 implication chain, 1 grid, 2 random 3-CNF (about 1.4 n clauses), 3 disjoint small gadgets with unused
+    /// labels in between, 4 chain with unit and duplicate clauses and a few long clauses
+    pub family: u8,
+    pub seed: u64,
+    /// 0 linear, 1 min-fill (where affordable, else FORCE), 2 FORCE, 3 random permutation
+    pub order_kind: u8,
+}
+
+pub fn huge_clauses(case: &HugeCase) -> Vec<Vec<(usize, bool)>> {
+    let n = case.n as usize;
+    let r = |k: u64| splitmix(case.seed ^ k.wrapping_mul(0x9E37_79B9_7F4A_7C15));
+    let mut out: Vec<Vec<(usize, bool)>> = Vec::new();
+    match case.family % 5 {
+        0 => {
+            for i in 0..n.saturating_sub(1) {
+                out.push(vec![(i, r(i as u64) & 1 == 1), (i + 1, r(i as u64) & 2 == 2)]);
+            }
+        }
+        1 => {
+            let w = ((n as f64).sqrt() as usize).max(2);
+            for i in 0..n {
+                if (i % w) + 1 < w && i + 1 < n {
+                    out.push(vec![(i, r(i as u64) & 1 == 1), (i + 1, r(i as u64) & 2 == 2)]);
+                }
+                if i + w < n {
+                    out.push(vec![(i, r(i as u64) & 4 == 4), (i + w, r(i as u64) & 8 == 8)]);
+                }
+            }
+        }
+        2 => {
+            let m = n * 7 / 5;
+            for c in 0..m {
+                let x = r(c as u64);
+                // local clauses (labels close together) with a few long-range ones, so that the interaction
+                // graph stays sparse and min-fill stays affordable
+                let a = (x % n as u64) as usize;
+                let span = if (x >> 60) == 0 { n } else { 12 };
+                let b = (a + 1 + ((x >> 20) as usize % span)) % n;
+                let d = (a + 1 + ((x >> 40) as usize % span)) % n;
+                out.push(vec![(a, x & 1 == 1), (b, x & 2 == 2), (d, x & 4 == 4)]);
+            }
+        }
+        3 => {
+            let mut i = 0usize;
+            let mut k = 0u64;
+            while i + 3 < n {
+                let x = r(k);
+                out.push(vec![(i, x & 1 == 1), (i + 1, x & 2 == 2)]);
+                out.push(vec![(i + 1, x & 4 == 4), (i + 2, x & 8 == 8)]);
+                out.push(vec![(i, x & 16 == 16), (i + 2, x & 32 == 32)]);
+                i += 3 + (x >> 8) as usize % 4;
+                k += 1;
+            }
+            if n >= 1 {
+                out.push(vec![(n - 1, true)]);
+            }
+        }
+        _ => {
+            for i in 0..n.saturating_sub(1) {
+                let x = r(i as u64);
+                out.push(vec![(i, x & 1 == 1), (i + 1, x & 2 == 2)]);
+                if x >> 61 == 0 {
+                    out.push(vec![(i, x & 4 == 4)]);
+                }
+                if x >> 61 == 1 {
+                    out.push(vec![(i, x & 1 == 1), (i + 1, x & 2 == 2)]);
+                }
+                if x >> 58 == 5 {
+                    out.push((0..6).map(|j| ((i + j * 7) % n, (x >> (10 + j)) & 1 == 1)).collect());
+                }
+            }
+        }
+    }
+    out
+}
+
+pub struct HugeOrders;
+
+pub fn run_huge(case: &HugeCase, st: &mut Stats) -> CaseResult {
+    let gen = huge_clauses(case);
+    if gen.is_empty() {
+        return Ok(());
+    }
+    let cnf = Cnf::new(
+        &gen.iter()
+            .map(|c| c.iter().map(|(v, p)| rsdd::repr::Literal::new(VarLabel::new_usize(*v), *p)).collect::<Vec<_>>())
+            .collect::<Vec<_>>(),
+    );
+    let n = cnf.num_vars();
+    // the clause list as the Cnf object holds it (whether Cnf::new kept the generating list is C15's concern)
+    let seen: Vec<BTreeSet<(usize, bool)>> =
+        cnf.clauses().iter().map(|c| c.iter().map(|l| (l.label().value_usize(), l.polarity())).collect()).collect();
+    let mentioned: Vec<usize> = seen.iter().flat_map(|c| c.iter().map(|l| l.0)).collect::<BTreeSet<usize>>().into_iter().collect();
+    ensure!(
+        mentioned.last().map(|m| m + 1).unwrap_or(0) <= n,
+        "C14/order-num-vars",
+        "a CNF mentioning label {:?} reports {} variables",
+        mentioned.last(),
+        n
+    );
+    st.bump(&format!("huge.family.{}", case.family % 5));
+    st.bump(match n {
+        0..=255 => "huge.vars.upto_255",
+        256..=257 => "huge.vars.256_257",
+        258..=511 => "huge.vars.258_511",
+        512..=1023 => "huge.vars.512_1023",
+        1024..=1025 => "huge.vars.1024_1025",
+        _ => "huge.vars.above_1025",
+    });
+    let lin = cnf.linear_order();
+    check_order(&lin, n, "linear_order (many variables)")?;
+    let force = cnf.force_order();
+    check_order(&force, n, "force_order (many variables)")?;
+    // min-fill is cubic in dense neighbourhoods: asked where it stays affordable (sparse families up to about
+    // 420 variables, the random family up to 300), which includes the sizes just beyond one byte of labels
+    let minfill_ok = n <= if case.family % 5 == 2 { 300 } else { 420 };
+    let minfill = if minfill_ok {
+        let o = cnf.min_fill_order();
+        check_order(&o, n, "min_fill_order (many variables)")?;
+        st.bump("huge.min_fill_asked");
+        if n > 256 {
+            st.bump("huge.min_fill_asked_beyond_256_variables");
+        }
+        Some(o)
+    } else {
+        None
+    };
+    let perm = crate::big::permutation(case.seed, n);
+    let mut random = VarOrder::new(&perm.iter().map(|v| VarLabel::new_usize(*v)).collect::<Vec<_>>());
+    check_order(&random, n, "VarOrder::new(permutation, many variables)")?;
+    let seq0: Vec<usize> = random.in_order_iter().map(|v| v.value_usize()).collect();
+    ensure!(seq0 == perm, "C14/order-new", "VarOrder::new of a permutation of {} labels iterates differently", n);
+    let order = match case.order_kind % 4 {
+        0 => lin,
+        1 => minfill.unwrap_or_else(|| force.clone()),
+        2 => force,
+        _ => random.clone(),
+    };
+    st.bump(&format!("huge.dtree_order_kind.{}", case.order_kind % 4));
+    // run-time extension
+    let l = random.new_last();
+    ensure!(l.value_usize() == n, "C14/order-new-last-label", "new_last() returned label {} for an order over {} variables", l.value(), n);
+    check_order(&random, n + 1, "after new_last (many variables)")?;
+    ensure!(
+        random.last_var() == l && random.get(l) == n,
+        "C14/order-new-last-position",
+        "the new label {} is at position {} (expected last, {})",
+        l.value(),
+        random.get(l),
+        n
+    );
+
+    let d = DTree::from_cnf(&cnf, &order);
+    let mut w = DWalk {
+        leaves: Vec::new(),
+        max_internal_cutset: 0,
+        nonempty_internal_cutset: false,
+        leaf_cutset_differs: false,
+    };
+    walk_dtree_fast(&d, &BTreeSet::new(), &mut w)?;
+    let mut got = w.leaves.clone();
+    got.sort();
+    let mut want = seen.clone();
+    want.sort();
+    ensure!(
+        got == want,
+        "C14/dtree-leaves-are-not-the-clauses",
+        "dtree of a CNF with {} clauses over {} variables: its {} leaves are not the CNF's clauses",
+        want.len(),
+        n,
+        got.len()
+    );
+    match VTree::from_dtree(&d) {
+        None => ensure!(mentioned.is_empty(), "C14/vtree-from-dtree-missing", "VTree::from_dtree returned None for a CNF over {} variables", n),
+        Some(v) => {
+            let mut leaves = Vec::new();
+            vtree_leaves(&v, &mut leaves);
+            leaves.sort_unstable();
+            ensure!(
+                leaves == mentioned,
+                "C14/vtree-from-dtree-leaves",
+                "vtree derived from the dtree of a CNF mentioning {} variables has {} leaves; missing {:?}, not mentioned or repeated {:?}",
+                mentioned.len(),
+                leaves.len(),
+                mentioned.iter().filter(|m| leaves.binary_search(m).is_err()).take(8).collect::<Vec<_>>(),
+                {
+                    let mut extra: Vec<usize> = leaves.windows(2).filter(|p| p[0] == p[1]).map(|p| p[0]).collect();
+                    extra.extend(leaves.iter().filter(|l| mentioned.binary_search(l).is_err()));
+                    extra.truncate(8);
+                    extra
+                }
+            );
+        }
+    }
+    st.flag("huge.unused_labels", mentioned.len() < n);
+    if n > 256 && w.nonempty_internal_cutset {
+        st.mark_nontrivial();
+    }
+    Ok(())
+}
+
+/// as `walk_dtree`, with the variable sets computed once per node (the trees here have up to some 2000 leaves and
+/// can be as deep)
+fn walk_dtree_fast(d: &DTree, ancestors: &BTreeSet<usize>, w: &mut DWalk) -> Result<BTreeSet<usize>, Failure> {
+    fn vars_of(d: &DTree, memo: &mut std::collections::HashMap<*const DTree, BTreeSet<usize>>) -> BTreeSet<usize> {
+        if let Some(s) = memo.get(&(d as *const DTree)) {
+            return s.clone();
+        }
+        let s: BTreeSet<usize> = match d {
+            DTree::Leaf { clause, .. } => clause.iter().map(|l| l.label().value_usize()).collect(),
+            DTree::Node { l, r, .. } => {
+                let mut s = vars_of(l, memo);
+                s.extend(vars_of(r, memo));
+                s
+            }
+        };
+        memo.insert(d as *const DTree, s.clone());
+        s
+    }
+    fn go(
+        d: &DTree,
+        ancestors: &BTreeSet<usize>,
+        w: &mut DWalk,
+        memo: &mut std::collections::HashMap<*const DTree, BTreeSet<usize>>,
+    ) -> Result<(), Failure> {
+        match d {
+            DTree::Leaf { clause, cutset, vars } => {
+                let lits: BTreeSet<(usize, bool)> = clause.iter().map(|l| (l.label().value_usize(), l.polarity())).collect();
+                let cv: BTreeSet<usize> = lits.iter().map(|l| l.0).collect();
+                ensure!(varset(vars) == cv, "C14/dtree-leaf-vars", "leaf for clause {:?} has vars {:?}", lits, varset(vars));
+                if varset(cutset) != cv.difference(ancestors).copied().collect::<BTreeSet<usize>>() {
+                    w.leaf_cutset_differs = true;
+                }
+                w.leaves.push(lits);
+                Ok(())
+            }
+            DTree::Node { l, r, cutset, vars } => {
+                let vl = vars_of(l, memo);
+                let vr = vars_of(r, memo);
+                let union: BTreeSet<usize> = vl.union(&vr).copied().collect();
+                ensure!(
+                    varset(vars) == union,
+                    "C14/dtree-node-vars",
+                    "internal node has {} vars but its children mention {} ({:?} differ)",
+                    varset(vars).len(),
+                    union.len(),
+                    varset(vars).symmetric_difference(&union).take(8).collect::<Vec<_>>()
+                );
+                let want: BTreeSet<usize> = vl.intersection(&vr).copied().filter(|v| !ancestors.contains(v)).collect();
+                ensure!(
+                    varset(cutset) == want,
+                    "C14/dtree-node-cutset",
+                    "internal node over {} variables: cutset {:?}, expected (vars(l) & vars(r)) minus ancestor cutsets = {:?}",
+                    union.len(),
+                    varset(cutset),
+                    want
+                );
+                w.max_internal_cutset = w.max_internal_cutset.max(want.len());
+                if !want.is_empty() {
+                    w.nonempty_internal_cutset = true;
+                }
+                let mut anc = ancestors.clone();
+                anc.extend(want.iter().copied());
+                go(l, &anc, w, memo)?;
+                go(r, &anc, w, memo)
+            }
+        }
+    }
+    let mut memo = std::collections::HashMap::new();
+    go(d, ancestors, w, &mut memo)?;
+    Ok(vars_of(d, &mut memo))
+}
+
+impl SubCheckT for HugeOrders {
+    type Case = HugeCase;
+    const NAME: &'static str = "orders_and_dtrees_many_variables";
+    const RULE: &'static str = "formula over 130..1300 variables generated from a seed (implication chain, grid, local random 3-CNF, disjoint gadgets with unused labels, chain with unit / duplicate / long clauses; sizes concentrated around 256 and 1024): linear_order, force_order, VarOrder::new(random permutation) + new_last, and min_fill_order where affordable (<= 420 variables, <= 300 for the random family) are checked as in `orders`; the dtree of one of these orders is checked as in `dtree` (leaves = clauses, vars, internal cutsets) and the derived vtree has exactly the mentioned variables as leaves. Non-trivial: more than 256 variables and a non-empty internal cutset";
+    fn cases(tier: Tier) -> u32 {
+        tier.pick(96, 1200)
+    }
+    fn strategy(_tier: Tier) -> BoxedStrategy<HugeCase> {
+        let n = prop_oneof![
+            4 => 255u16..=262,
+            3 => 257u16..=420,
+            1 => 130u16..=256,
+            2 => 421u16..=1020,
+            1 => 1021u16..=1030,
+            1 => 1031u16..=1300,
+        ];
+        (n, 0u8..5, any::<u64>(), 0u8..4).prop_map(|(n, family, seed, order_kind)| HugeCase { n, family, seed, order_kind }).boxed()
+    }
+    fn run(case: &HugeCase, st: &mut Stats) -> CaseResult {
+        run_huge(case, st)
+    }
+}
+
 pub fn property() -> Property {
     Property {
         id: "C14",
-        subs: vec![sub::<Orders>(), sub::<Dtrees>(), sub::<Manager>(), sub::<Lca>()],
+        subs: vec![sub::<Orders>(), sub::<Dtrees>(), sub::<Manager>(), sub::<Lca>(), sub::<HugeOrders>()],
         fuzz: vec![],
         assumptions: vec![
-            "CNFs over <= 7 variables, and in about 2 % of the order / dtree cases 20..130 variables; vtrees with <= 12 leaves, and in about 1 % of the cases 17..150 leaves",
+            "CNFs over <= 7 variables, in about 2 % of the order / dtree cases 20..130 variables, and in a sub-check of its own 130..1300 variables (min-fill asked up to 420: its cost grows cubically, 1000 variables take minutes); vtrees with <= 12 leaves, and in about 1 % of the cases 17..150 leaves",
             "excluded by construction and counted: CNFs without clauses for DTree::from_cnf (asserted by the library) and for force_order (its loop never terminates on NaN: a hang is reported as inconclusive, not as a violation); CNFs with an empty clause for force_order (usize underflow in the span computation, outside the listed domain)",
             "for non-contiguous leaf labels VTreeManager::num_vars may be the leaf count or largest label + 1 (doc comment and VTree::num_vars disagree)",
         ],
